@@ -313,3 +313,24 @@ pub fn mix(mut x: u64) -> u64 {
     x = (x ^ (x >> 27)).wrapping_mul(0x94d049bb133111eb);
     x ^ (x >> 31)
 }
+
+/// Run `f` on a helper thread; None if it does not return within `secs` (the thread is left behind —
+/// used to turn a blocked command loop into a verdict instead of a hung harness).
+pub fn with_timeout<T: Send + 'static>(secs: u64, f: impl FnOnce() -> T + Send + 'static) -> Option<T> {
+    let (tx, rx) = std::sync::mpsc::channel();
+    std::thread::Builder::new()
+        .stack_size(256 * 1024 * 1024)
+        .spawn(move || {
+            let r = catch(f);
+            let _ = tx.send(r);
+        })
+        .ok()?;
+    match rx.recv_timeout(std::time::Duration::from_secs(secs)) {
+        Ok(Ok(v)) => Some(v),
+        Ok(Err(e)) => {
+            ESCAPED.lock().unwrap().push(format!("helper thread: {e}"));
+            None
+        }
+        Err(_) => None,
+    }
+}
